@@ -940,3 +940,10 @@ def _m69():
         assert old in src
         return src.replace(old, 'dirs = {_get_path(i).parent() for i in targets}')
     advset.rewrite(mw, 'directory_deps', edit)
+
+
+@mutant('ldlibs_uses_global_ldflags')
+def _m70():
+    from bfg9000.builtins import link as bl
+    _patch_source(bl, '_get_flags', 'variables[ldlibs] = [global_ldlibs] + lib_flags',
+                  'variables[ldlibs] = [global_ldflags] + lib_flags')
